@@ -16,6 +16,22 @@ import h5py
 from srlife import writers
 
 
+class PagedArray(np.memmap):
+    """
+    Results array mapped to a file on disk
+
+    Travels between processes as the plain array it holds (the map itself
+    cannot be pickled), so tubes with paged results can still be handed to
+    the worker pools
+    """
+
+    def __reduce__(self):
+        return np.asarray(self).__reduce__()
+
+    def __reduce_ex__(self, protocol):
+        return self.__reduce__()
+
+
 class Receiver:
     """Basic definition of the tubular receiver geometry.
 
@@ -785,7 +801,7 @@ class Tube:
           shape:  required shape
         """
         if self.page:
-            return np.memmap(
+            return PagedArray(
                 self.page_prefix + name + ".dat",
                 dtype=np.float64,
                 mode="w+",
